@@ -18,6 +18,26 @@ import (
 func T3EncBufferBounds(p *AsmProg, kind string) func(x *Exec) {
 	return func(x *Exec) {
 		s := x.st
+		// "omitempty:<bits>[f]": a struct with one omitempty scalar field of that width
+		omitW, omitFloat := 0, false
+		if strings.HasPrefix(kind, "omitempty:") {
+			w := strings.TrimPrefix(kind, "omitempty:")
+			if strings.HasSuffix(w, "f") {
+				omitFloat = true
+				w = strings.TrimSuffix(w, "f")
+			}
+			fmt.Sscanf(w, "%d", &omitW)
+			kind = "scalar"
+		}
+		// "outlen:<t>,<f>": a struct with one bool field; the text has <t> bytes when the field is
+		// true and <f> bytes when it is false (which decides whether, and under which name
+		// length, the field's tag made it a member)
+		outT, outF := -1, -1
+		if strings.HasPrefix(kind, "outlen:") {
+			fmt.Sscanf(strings.TrimPrefix(kind, "outlen:"), "%d,%d", &outT, &outF)
+			kind = "scalar"
+		}
+		var scalarIn *smt.Term
 		const capMax = 160
 		const strMax = 4
 		st := NewAsmState()
@@ -58,6 +78,7 @@ func T3EncBufferBounds(p *AsmProg, kind string) func(x *Exec) {
 		// every source string the generated code may quote, with what the quoter consumed so far
 		srcs := map[*Object]*t3src{str: {length: slen, consumed: x.c64(0)}}
 		var vp Ptr
+		sliceN, marshalerCalls := -1, 0
 		switch kind {
 		case "string", "qstring":
 			vp = Ptr{Obj: hdr, Off: x.c64(0)}
@@ -86,6 +107,22 @@ func T3EncBufferBounds(p *AsmProg, kind string) func(x *Exec) {
 			x.storeLeaf(sh, 8, 8, x.c64(int64(n)))
 			x.storeLeaf(sh, 16, 8, x.c64(2))
 			vp = Ptr{Obj: sh, Off: x.c64(0)}
+		case "slice_marshaler":
+			// a slice of 0..2 eight-byte elements whose pointer type implements a marshaler
+			sliceN = int(x.Concretize(func() *smt.Term {
+				t := x.newInput("elems", 64)
+				x.assume(s.Ule(t, x.c64(2)))
+				return t
+			}()))
+			arr := x.newObject(8*2, nil, "elem-array")
+			for i := 0; i < sliceN; i++ {
+				x.storeLeaf(arr, 8*i, 8, x.newInput(fmt.Sprintf("elem[%d]", i), 64))
+			}
+			sh := x.newObject(24, nil, "slice-header")
+			x.storeLeaf(sh, 0, 8, Ptr{Obj: arr, Off: x.c64(0)})
+			x.storeLeaf(sh, 8, 8, x.c64(int64(sliceN)))
+			x.storeLeaf(sh, 16, 8, x.c64(2))
+			vp = Ptr{Obj: sh, Off: x.c64(0)}
 		case "bytes":
 			// []byte of 0..6 bytes
 			bl := x.newInput("byteslen", 64)
@@ -102,7 +139,8 @@ func T3EncBufferBounds(p *AsmProg, kind string) func(x *Exec) {
 		case "scalar", "marshaler":
 			// an 8-byte scalar (integer of any width, float, bool in the low byte): arbitrary bits
 			sc := x.newObject(8, nil, "scalar")
-			x.storeLeaf(sc, 0, 8, x.newInput("scalar", 64))
+			scalarIn = x.newInput("scalar", 64)
+			x.storeLeaf(sc, 0, 8, scalarIn)
 			vp = Ptr{Obj: sc, Off: x.c64(0)}
 		default:
 			x.notEncoded("tier-3 encoder harness: unknown value kind %q", kind)
@@ -134,6 +172,12 @@ func T3EncBufferBounds(p *AsmProg, kind string) func(x *Exec) {
 				return true
 			},
 			OnCall: func(as *AsmState, sym SymAddr) bool {
+				if sliceN >= 0 && strings.HasPrefix(sym.Name, "native.") {
+					// the element type's own method produces the text: a native formatter reached
+					// from here means the element is being encoded field by field
+					x.check(s.False, "assert", "the elements of a slice whose pointer type implements a marshaler interface are encoded without calling the method")
+					x.abort(abEnd, "slice element encoded natively")
+				}
 				switch {
 				case sym.Name == "native.quote":
 					// quote(sp DI, nb SI, dp DX, dn *CX, flags R8): writes at most *dn bytes at dp,
@@ -263,6 +307,7 @@ func T3EncBufferBounds(p *AsmProg, kind string) func(x *Exec) {
 				case strings.HasSuffix(sym.Name, "prim.EncodeJsonMarshaler") || strings.HasSuffix(sym.Name, "prim.EncodeTextMarshaler"):
 					// the user's marshaler runs: arbitrary success / failure, buffer handled through rb
 					marshalerCalled = true
+					marshalerCalls++
 					clobber(as, "CX", "DX", "SI", "DI", "R8", "R9", "R10", "R11")
 					as.R["AX"] = x.c64(0)
 					as.R["BX"] = x.c64(0)
@@ -304,6 +349,36 @@ func T3EncBufferBounds(p *AsmProg, kind string) func(x *Exec) {
 			x.check(s.Ule(l, c), "assert", "encoder returns a buffer whose length exceeds its capacity")
 			x.check(s.Ule(c, x.objLSize(cur)), "assert", "encoder returns a buffer whose capacity exceeds its allocation")
 			x.covers["returned"] = true
+			if omitW > 0 {
+				// the field is left out (the object is "{}": two bytes) exactly when it holds the
+				// zero value of its type: every bit of its width counts (for floats, -0 may go
+				// either way: it decodes to a value equal to zero)
+				omitted := s.Eq(s.Sub(l, len0), x.c64(2))
+				low := s.Extract(scalarIn, omitW-1, 0)
+				isZero := s.Eq(low, s.Const(omitW, 0))
+				valueZero := isZero
+				if omitFloat {
+					valueZero = s.Eq(s.Extract(scalarIn, omitW-2, 0), s.Const(omitW-1, 0))
+				}
+				x.check(s.Implies(omitted, valueZero), "assert", "an omitempty field holding a non-zero value is left out of the output (the emptiness test looks at fewer bytes than the field has)")
+				x.check(s.Implies(isZero, omitted), "assert", "an omitempty field holding the zero value is written")
+				x.covers["omitempty"] = true
+			}
+			if outT >= 0 {
+				bit := s.Extract(scalarIn, 7, 0)
+				x.assume(s.Ule(bit, s.Const(8, 1)))
+				n := s.Sub(l, len0)
+				x.check(s.Implies(s.Eq(bit, s.Const(8, 1)), s.Eq(n, x.c64(int64(outT)))), "assert", "the text written for a one-field struct (field true) does not have the length its tag calls for")
+				x.check(s.Implies(s.Eq(bit, s.Const(8, 0)), s.Eq(n, x.c64(int64(outF)))), "assert", "the text written for a one-field struct (field false) does not have the length its tag calls for")
+				x.covers["outlen"] = true
+			}
+			if kind == "slice_marshaler" {
+				// slice elements are addressable: the pointer-receiver method encodes every element
+				x.check(s.Bool(marshalerCalls == sliceN), "assert", "the elements of a slice whose pointer type implements a marshaler interface are encoded without calling the method")
+				if marshalerCalls == sliceN && sliceN > 0 {
+					x.covers["marshaler-called"] = true
+				}
+			}
 			if kind == "marshaler" {
 				// a map (or any non-pointer, non-interface) value whose type implements a marshaler
 				// interface is encoded by calling the method - also when the map is nil, as
